@@ -675,8 +675,19 @@ Lemma fp_sample_safe C st L :
   layout_ok 1 C st -> 0 <= L ->
   Forall (Safe (ext_dense 1 st (sample_rows C L)) balign_dense) (fp_sample C st L).
 Proof.
-  intros [_ [HC [Hle _]]] HL. apply Forall_forall. intros a Ha. unfold fp_sample in Ha.
-  destr_in; subst. split; [fp_unfold; nia | apply aligned_1].
+  intros [_ [HC [Hle _]]] HL. apply Forall_forall. intros a Ha. unfold fp_sample in Ha. cbv zeta in Ha.
+  set (R := sample_rows C L) in *.
+  assert (HR0 : 0 <= R) by (unfold R, sample_rows; apply Z.div_pos; lia).
+  assert (Hcell : forall x, 0 <= x < R * C ->
+            0 <= (x mod R) * st + x / R /\ (x mod R) * st + x / R + 1 <= R * st).
+  { intros x Hx. assert (0 < R) by nia.
+    pose proof (Z.mod_pos_bound x R ltac:(lia)).
+    assert (0 <= x / R < C).
+    { split; [apply Z.div_pos; lia | apply Z.div_lt_upper_bound; nia]. }
+    nia. }
+  destr_in; subst.
+  - split; [fp_unfold; fold R; nia | apply aligned_1].
+  - specialize (Hcell x ltac:(lia)). split; [fp_unfold; fold R; lia | apply aligned_1].
 Qed.
 
 (* =====================================================================
